@@ -575,12 +575,21 @@ class GenericPlainRegistry(Generic[QuantityT, UnitT], metaclass=RegistryMeta):
                 if dim_name not in self._dimensions:
                     self._add_dimension(DimensionDefinition(dim_name))
 
+        redefined = definition.name in self._units
+
         self._helper_adder(definition, self._units, self._units_casei)
 
         # A string parsed before this definition existed (e.g. as prefix + unit)
         # must not keep its cached meaning.
         for key in (definition.name, definition.symbol, *definition.aliases):
             self._cache.parse_unit.pop(key, None)
+
+        if redefined:
+            # Values computed from the previous definition (for this unit and for
+            # every unit defined in terms of it) must not outlive it.
+            self._cache.root_units.clear()
+            self._cache.conversion_factor.clear()
+            self._cache.dimensionality.clear()
 
     def load_definitions(
         self, file: Iterable[str] | str | pathlib.Path, is_resource: bool = False
